@@ -91,6 +91,7 @@ def text_walk(binary, tier):
     if rc != 0:
         raise C.Infra('C16 text walk failed: ' + log[-2000:])
     stats, wins, notes, opsd = {}, [], [], collections.Counter()
+    fams, mwins = collections.Counter(), []
     for line in open(outp):
         line = line.rstrip('\n')
         if line.startswith('#elf '):
@@ -99,6 +100,13 @@ def text_walk(binary, tier):
                 stats[os.path.basename(p[1])] = {'error': ' '.join(p[3:])}
             else:
                 stats[os.path.basename(p[1])] = {k: int(v) for k, v in (x.split('=') for x in p[2:])}
+        elif line.startswith('#fams '):
+            for kv in line.split()[2:]:
+                k, v = kv.rsplit('=', 1)
+                fams[k] += int(v)
+        elif line.startswith('M'):
+            n, h = line[1:].split()
+            mwins.append((int(n), h))
         elif line.startswith('#ops '):
             for kv in line.split()[2:]:
                 k, v = kv.split('=')
@@ -108,7 +116,7 @@ def text_walk(binary, tier):
         elif line:
             n, h = line.split()
             wins.append((int(n), h))
-    return stats, wins, notes, opsd
+    return stats, wins, notes, opsd, fams, mwins
 
 
 def mutate(rng, ilen, win):
@@ -142,7 +150,7 @@ def mutate(rng, ilen, win):
     return bytes(b[:16]).hex()
 
 
-def gen_ops(tier, rng, wins):
+def gen_ops(tier, rng, wins, mwins=()):
     """Returns (ops, lane of each op)."""
     ops, lanes = [], []
 
@@ -162,6 +170,10 @@ def gen_ops(tier, rng, wins):
     chosen = wins[::step][:ntext] if wins else []
     for n, h in chosen:
         add(h, 'text')
+    # instructions of the walked binaries that goom mis-frames (known finding): model == implementation is still required
+    for n, h in mwins:
+        add(h, 'text-misframed')
+        add(h[:2 * n], 'text-misframed')
     # (d) truncations of sampled real instructions: every cut inside the instruction, and the exact instruction alone
     ntr = 30_000 if full else 6_000
     for _ in range(ntr if wins else 0):
@@ -327,8 +339,18 @@ def run(tier):
         proof = {'ok': False, 'failed': [('table-dump', gen_msg)], 'obligations': 0, 'discharged': 0, 'cmds': [], 'axioms': {}}
     t_proof = time.time() - t0
     binary = probe_bin()
-    estats, wins, notes, opsd = text_walk(binary, tier)
-    ops, lanes = gen_ops(tier, rng, wins)
+    estats, wins, notes, opsd, fams, mwins = text_walk(binary, tier)
+    # floors: a walk that silently covered nothing is a machinery failure, not a pass
+    for name, st in estats.items():
+        if 'error' in st:
+            raise C.Infra(f'C16 text walk: {name}: {st["error"]}')
+        if st.get('funcs', 0) < 1000 or st.get('instrs', 0) < 100_000:
+            raise C.Infra(f'C16 text walk: {name}: only {st.get("funcs")} functions / {st.get("instrs")} instructions walked')
+        if st.get('unknown_abandoned', 0) * 200 > st['funcs']:
+            raise C.Infra(f'C16 text walk: {name}: {st["unknown_abandoned"]} functions abandoned (neither the reference nor the length rule applies)')
+    if len(estats) < 3 or len(wins) < 50_000 or sum(st.get('rule_validated', 0) for st in estats.values()) < 200:
+        raise C.Infra(f'C16 text walk too small: {len(estats)} ELF files, {len(wins)} distinct instructions')
+    ops, lanes = gen_ops(tier, rng, wins, mwins)
     seen, o2, l2 = set(), [], []
     for o, l in zip(ops, lanes):
         if o not in seen:
@@ -359,10 +381,38 @@ def run(tier):
         h = line.split()[1]
         out.violation('goom and the reference decoder disagree on an instruction the toolchain emitted: ' + line[8:300],
                       {'kind': 'reference-disagreement', 'ops': ['c16.dec ' + h], 'why': line})
+    # 2b. instructions of the walked binaries whose true boundary (independent length rule; the reference is blind or wrong there)
+    #     goom does not report.  Known finding for exactly the opcode families listed in KNOWN_FINDINGS.jsonl that goom's table lacks;
+    #     a new family, or an opcode the table has but frames wrongly, is a violation.
+    kf_fams = {}
+    for kf in C.known_findings('C16'):
+        for f in kf.get('match', {}).get('families', []):
+            kf_fams[f] = kf['match']['key']
+    mis_lines = {}
+    for line in notes:
+        if line.startswith('#misframed '):
+            mis_lines.setdefault(line.split()[1], line)
+    for k in sorted(fams):
+        cls, fam = k.split(':', 1)
+        line = mis_lines.get(k, '')
+        h = line.split()[2] if line else ''
+        key = kf_fams.get(fam) if cls == 'unknown-to-table' else None
+        out.violation(f'goom mis-frames a toolchain-emitted instruction ({k}, {fams[k]} occurrences): ' + line[11:330],
+                      {'kind': 'text-misframed', 'ops': ['c16.dec ' + h] if h else [], 'family': k, 'why': line}, key=key)
+    for tag, kind in (('#strpanic', 'impl-oracle'), ('#strdiffer', 'reference-disagreement'), ('#rulediff', 'reference-disagreement')):
+        for line in [n for n in notes if n.startswith(tag)][:2]:
+            h = line.split()[1]
+            out.violation({'#strpanic': 'Inst.String() panicked on a toolchain-emitted instruction: ',
+                           '#strdiffer': 'Inst.String() of goom and of the reference differ on a toolchain-emitted instruction: ',
+                           '#rulediff': 'the independent length rule and the reference disagree on the boundary of a toolchain-emitted instruction: '}[tag]
+                          + line[len(tag) + 1:300], {'kind': kind, 'ops': ['c16.dec ' + h], 'why': line})
     refdiff = collections.Counter()
     unexplained = []
     for i, op in enumerate(ops):
         if impl[i] != ref[i] and impl[i] is not None and ref[i] is not None:
+            if lanes[i] == 'text-misframed':
+                refdiff['known mis-framed toolchain instruction (reference blind or wrong too)'] += 1
+                continue
             fam = None if lanes[i] == 'text' else changed_encoding(op.split()[1])
             if fam is None:
                 unexplained.append(i)
@@ -420,7 +470,7 @@ def run(tier):
                 'zero tolerance.  non-trivial = distinct byte string on which goom returns a real opcode (err=ok, Op != 0).',
         'distribution': {'lanes': dict(lanec), 'impl_result_classes': dict(errs), 'len_histogram': {str(k): v for k, v in sorted(lens_.items())},
                          'pcrel_width_histogram': {str(k): v for k, v in sorted(pcw.items())}, 'distinct_opcodes_in_stream': len(opnames),
-                         'text_walk': estats, 'text_walk_distinct_opcodes': len(opsd), 'text_walk_instructions_differing_from_reference': text_differ,
+                         'text_walk': estats, 'text_walk_misframed_families': dict(fams), 'text_walk_distinct_opcodes': len(opsd), 'text_walk_instructions_differing_from_reference': text_differ,
                          'reference_differences_on_synthetic_strings_by_class': dict(refdiff), 'reference_differences_unexplained': len(unexplained),
                          'table': tstats, 'gen_modules_changed_this_run': changed, 'proof_wall_s': round(t_proof, 1)},
         'explanation': 'Agreement with the reference decoder on toolchain-emitted instructions is measured (differential), not proved.',
